@@ -4,7 +4,7 @@
 (*               file) followed by one load; observed: wres, created, exists, mode   *)
 (*               bits, lres ("ok" or the exception class), lkey (relation of the     *)
 (*               loaded key to the written one)                                       *)
-(*  kind "cmp":  two key objects compared: eq, eq_rev, ne, heq, fpeq, beq, err       *)
+(*  kind "cmp":  two key objects compared: eq, eq_rev, ne, heq, fpeq, beq, rt, err       *)
 (* The step installs the observation in the design spec's variables and evaluates    *)
 (* the design spec's invariants on that state.                                       *)
 EXTENDS KeyIO, Sequences, Json, IOUtils, TLCExt
@@ -53,7 +53,7 @@ CmpStep ==
             \cup Clause(R.err = "-", "P_compare_raised")
             \cup Clause(R.eq_rev = R.eq /\ R.ne = ~R.eq, "P_eq_inconsistent")
             \cup Clause(HashOnlyPublic', "P_hash_not_only_public")
-            \cup Clause(PublicStable', "P_public_encoding_unstable")
+            \cup Clause(PublicStable' /\ R.rt, "P_public_encoding_unstable")
             \cup Clause(DistinctDiffer', "C_distinct_keys_share_encoding")
 
 TInit == tid \in 1..Len(Batch) /\ l = 1 /\ bad = {} /\ Init /\ mode = "file"
